@@ -203,13 +203,16 @@ def from_pairs(x):
 
 
 def resolve_ffdc(val):
-    """Model/spec value for the FFDC section -> the text the plugin must return, or None if json.loads raises."""
-    t = val[1][0][1][1][0][1]
-    assert val[1][0][0] == "Callout List FFDC" and val[1][0][1][1][0][0] == "@loads"
-    try:
-        return json.dumps({"Callout List FFDC": json.loads(t)})
-    except Exception:  # noqa: BLE001
-        return None
+    """Model/spec value for the FFDC section -> the text the plugin must return, or None if json.loads raises.
+    The model decides json.loads itself (Model/JsonLoads.v); only for a float or very deep nesting it leaves the marker."""
+    assert val[1][0][0] == "Callout List FFDC"
+    inner = val[1][0][1]
+    if isinstance(inner, tuple) and inner[1] and inner[1][0][0] == "@loads" and len(inner[1]) == 1:
+        try:
+            return json.dumps({"Callout List FFDC": json.loads(inner[1][0][1])})
+        except Exception:  # noqa: BLE001
+            return None
+    return json.dumps({"Callout List FFDC": from_pairs(inner)})
 
 
 def same(impl, exp):
@@ -264,6 +267,8 @@ def spec_expected(model, cd, c):
     d = dict(a[1])
     if g["cmd"] == "hw_gen_regdump" and not d["addrs_ok"]:
         return None
+    if d["expected"] == "@raise":
+        return ("raise",)
     return ("ok", common.canon_model(d["expected"]))
 
 
